@@ -43,6 +43,14 @@
 #define HAVE_INODE 1
 #endif
 
+/* -DC01_NAMES (harness/C01/cases_extra_w4.py): the same facts as
+ * packing-fidelity obligations */
+#ifdef C01_NAMES
+#define ALSO_C01(c, name) VERIF_ASSERT(c, name)
+#else
+#define ALSO_C01(c, name) ((void)0)
+#endif
+
 static void *c08_memcpy(void *dst, const void *src, size_t n);
 static void c08_free(void *p);
 #define memcpy c08_memcpy
@@ -370,8 +378,18 @@ void harness(void)
 			     "C08.frag.share_needs_equal");
 		VERIF_ASSERT(g_eq_error == 0 && ret == 0,
 			     "C08.frag.share_needs_equal");
+		/* C01: deduplicated tail: the inode names a chunk whose bytes
+		 * compared equal to this fragment's */
+		ALSO_C01(g_search_ret != NULL && g_eq_true_for != NULL &&
+			 g_setloc_index == g_eq_true_for->index &&
+			 g_setloc_offset == g_eq_true_for->offset &&
+			 g_eq_true_for == (const chunk_info_t *)g_search_ret->data,
+			 "C01.frag.location");
 	}
 
+	/* C01: a fragment never leaves without a location or an error */
+	if (ret == 0 && HAVE_INODE)
+		ALSO_C01(g_setloc_calls == 1, "C01.frag.location");
 	if (g_eq_error != 0) {
 		VERIF_ASSERT(ret == g_eq_error, "C08.frag.lookup_error_propagates");
 		VERIF_ASSERT(g_setloc_calls == 0, "C08.frag.lookup_error_propagates");
@@ -438,6 +456,17 @@ void harness(void)
 					     g_setloc_index == exp_index &&
 					     g_setloc_offset == exp_offset,
 					     "C08.frag.own_location");
+			/* C01: own tail: (index, offset) in the inode = where the
+			 * bytes were put, size bytes, inside the fragment block */
+			if (HAVE_INODE)
+				ALSO_C01(g_setloc_index == exp_index &&
+					 g_setloc_offset == exp_offset &&
+					 g_p.proc.frag_block != NULL &&
+					 g_p.proc.frag_block->index == exp_index &&
+					 (sqfs_u64)exp_offset + frag_size ==
+					 g_p.proc.frag_block->size &&
+					 g_p.proc.frag_block->size <= BS,
+					 "C01.frag.location");
 		}
 	} else if (ret == 0) {
 		VERIF_ASSERT(g_search_calls == 1 && g_search_ret != NULL,
